@@ -18,7 +18,7 @@ Definition chan_ok (t : rtok) : Prop :=
 
 Definition no_expr_type (t : TokenType) : Prop :=
   t <> T_StringExprStart /\ t <> T_StringExprEnd /\ t <> T_StringExprText /\ t <> T_MacroLabel /\
-  t <> T_DatalinesStart /\ t <> T_DatalinesData.
+  t <> T_DatalinesStart /\ t <> T_DatalinesData /\ t <> T_MacroSep.
 
 (** a lexeme is either one token that is not part of any group, or the datalines triple *)
 Definition lexeme_shape (ts : list rtok) : Prop :=
@@ -39,7 +39,7 @@ Lemma keyword_plain u kw : parse_keyword u = Some kw -> is_comment_type kw = fal
 Proof.
   unfold parse_keyword.
   pose (bad := fun t => is_comment_type t || tt_eqb t T_WS || tt_eqb t T_StringExprStart || tt_eqb t T_StringExprEnd || tt_eqb t T_StringExprText
-                         || tt_eqb t T_MacroLabel || tt_eqb t T_DatalinesStart || tt_eqb t T_DatalinesData).
+                         || tt_eqb t T_MacroLabel || tt_eqb t T_DatalinesStart || tt_eqb t T_DatalinesData || tt_eqb t T_MacroSep).
   assert (Hall : forallb (fun p => negb (bad (snd p))) KEYWORDS_C = true) by (vm_compute; reflexivity).
   assert (Hbad : forall t, bad t = false -> is_comment_type t = false /\ t <> T_WS /\ no_expr_type t).
   { intros t Hb. destruct t; vm_compute in Hb; try discriminate Hb; (split; [reflexivity|]); (split; [discriminate|]);
@@ -140,7 +140,7 @@ Proof. intros H. destruct (tt_eqb a b) eqn:E; [apply tt_eqb_eq in E; contradicti
 
 Lemma grp_single t r : no_expr_type t -> grp_okb (t :: r) = grp_okb r.
 Proof.
-  intros (H1 & H2 & H3 & H4 & H5 & H6). cbn [grp_okb]. rewrite (tt_eqb_neq _ _ H5). unfold grouped_type.
+  intros (H1 & H2 & H3 & H4 & H5 & H6 & _). cbn [grp_okb]. rewrite (tt_eqb_neq _ _ H5). unfold grouped_type.
   rewrite (tt_eqb_neq _ _ H6), (tt_eqb_neq _ _ H1), (tt_eqb_neq _ _ H2), (tt_eqb_neq _ _ H3), (tt_eqb_neq _ _ H4). reflexivity.
 Qed.
 
@@ -152,30 +152,32 @@ Proof. repeat constructor; try discriminate; cbn [rt_chan rt_type] in *; try dis
 
 Lemma reflex_loop_shape : forall fuel l pos st toks errs,
   let '(T, _, _) := reflex_loop fuel l pos st toks errs in
-  exists S, T = rev toks ++ S /\ grp_okb (map rt_type S) = true /\ Forall chan_ok S.
+  exists S, T = rev toks ++ S /\ grp_okb (map rt_type S) = true /\ Forall chan_ok S /\ Forall (fun t => rt_type t <> T_MacroSep) S.
 Proof.
   induction fuel as [|f IH]; intros l pos st toks errs; cbn [reflex_loop].
-  - cbv beta iota zeta. exists []. split; [rewrite app_nil_r; reflexivity|]. split; [reflexivity|constructor].
+  - cbv beta iota zeta. exists []. split; [rewrite app_nil_r; reflexivity|]. split; [reflexivity|]. split; constructor.
   - destruct l as [|c r].
     + cbv beta iota zeta. exists [mkRtok T_EOF CH_DEFAULT pos PNone]. split; [reflexivity|]. split; [reflexivity|].
-      constructor; [|constructor]. apply default_ok; [reflexivity|discriminate].
+      split; [constructor; [|constructor]; apply default_ok; [reflexivity|discriminate]|]. repeat constructor. discriminate.
     + pose proof (lexeme_shape_ok (c :: r) pos st ltac:(discriminate)) as Hs.
       destruct (lexeme (c :: r) pos st) as [[[ts es] n] st'] eqn:El. unfold toks_of in Hs. cbn [fst snd] in Hs.
       specialize (IH (skipn_N (N.to_nat n) (c :: r)) (pos + blen (firstn (N.to_nat n) (c :: r))) st' (rev_append ts toks) (rev_append es errs)).
       assert (Hrev : rev (rev_append ts toks) = rev toks ++ ts) by (rewrite rev_append_rev, rev_app_distr, rev_involutive; reflexivity).
       rewrite Hrev in IH.
-      destruct (reflex_loop f _ _ _ _ _) as [[T E] st2]. destruct IH as (S & ET & HG & HC).
+      destruct (reflex_loop f _ _ _ _ _) as [[T E] st2]. destruct IH as (S & ET & HG & HC & HM).
       exists (ts ++ S). split; [rewrite ET, <- app_assoc; reflexivity|].
       destruct Hs as [(t & -> & Hc & Hn)|(p1 & p2 & p3 & ->)].
-      * split; [cbn [app map]; rewrite (grp_single _ _ Hn); exact HG|]. constructor; [exact Hc|exact HC].
-      * split; [cbn [app map rt_type grp_okb]; rewrite HG; reflexivity|]. apply Forall_app. split; [apply triple_chan_ok|exact HC].
+      * split; [cbn [app map]; rewrite (grp_single _ _ Hn); exact HG|]. split; [constructor; [exact Hc|exact HC]|].
+        constructor; [exact (proj2 (proj2 (proj2 (proj2 (proj2 (proj2 Hn))))))|exact HM].
+      * split; [cbn [app map rt_type grp_okb]; rewrite HG; reflexivity|]. split; [apply Forall_app; split; [apply triple_chan_ok|exact HC]|].
+        cbn [app]. repeat constructor; try discriminate. exact HM.
 Qed.
 
 Theorem reflex_shape (src : list char) :
-  let '(T, _, _) := reflex src in grp_okb (map rt_type T) = true /\ Forall chan_ok T.
+  let '(T, _, _) := reflex src in grp_okb (map rt_type T) = true /\ Forall chan_ok T /\ Forall (fun t => rt_type t <> T_MacroSep) T.
 Proof.
   unfold reflex.
   destruct (match src with c :: r => if c =? 65279 then (utf8_len c, r) else (0, src) | [] => (0, src) end) as [bb text].
   pose proof (reflex_loop_shape (S (List.length text)) text bb (mkRstate false None [] 0) [] []) as H.
-  destruct (reflex_loop _ _ _ _ _ _) as [[toks errs] st]. destruct H as (S & -> & H1 & H2). cbn [rev app]. split; assumption.
+  destruct (reflex_loop _ _ _ _ _ _) as [[toks errs] st]. destruct H as (S & -> & H1 & H2 & H3). cbn [rev app]. split; [assumption|split; assumption].
 Qed.
